@@ -152,14 +152,14 @@ func chainValues() []namedVal {
 		{"float32", encFloat32(1.5)},
 		{"float64", encFloat64(2.25)},
 		{"str", encStrForm("7", 0)},
-		{"bool", {0xc3}},
-		{"nil", {0xc0}},
+		{"bool", []byte{0xc3}},
+		{"nil", []byte{0xc0}},
 		{"map", mpj([]byte{0x82}, encStrForm("a", 0), i(0xd0, 5), encStrForm("b", 0), encStrForm("s", 0))},
 		{"map16", mpj([]byte{0xde, 0x00, 0x01}, encStrForm("a", 1), i(0xd3, 5))},
 		{"array", mpj([]byte{0x93}, i(0xd0, 5), u(0xcc, 5), i(0xd0, 5))},
 		{"array16", mpj([]byte{0xdc, 0x00, 0x02}, encFloat32(1), mpj([]byte{0x81}, encStrForm("a", 0), []byte{0x01}))},
-		{"emptymap", {0x80}},
-		{"emptyarray", {0x90}},
+		{"emptymap", []byte{0x80}},
+		{"emptyarray", []byte{0x90}},
 	}
 }
 
